@@ -26,7 +26,10 @@ from symx.core import Ctx, Stats, explore, Inconclusive, Unsupported, PathLimit,
 from . import lib, runner, callsym
 
 ATOM_POOL = ["(p o1)", "(p o3)", "(p k)", "(q o1 o2)", "(q o2 o2)", "(q o3 k)", "(r)", "(s u1)", "(m o3 o3)", "(m o3 o1)", "(ob u1)", "(un o3)", "(ob k)"]
-FLUENT_POOL = ["(f o1)", "(g)", "(h o2 o1)", "(h o1 o1)", "(f k)", "(f o3)", "(w3 o1 o1 o1)", "(w3 o1 o2 o3)"]
+# ... (w4 o2 o2 o1 o1): two different objects, each repeated, the first one sorting after the second;
+# (w3 o1 o2 o2): a repeated argument AFTER another argument (known finding F2: the position of a repeated argument is not kept)
+FLUENT_POOL = ["(f o1)", "(g)", "(h o2 o1)", "(h o1 o1)", "(f k)", "(f o3)", "(w3 o1 o1 o1)", "(w3 o1 o2 o3)", "(w4 o2 o2 o1 o1)",
+               "(w3 o1 o2 o2)"]
 GOALS = [
     [],
     [["p", "o1"]],
@@ -52,7 +55,8 @@ DOMAIN_NAME = "uni-dom2"  # long enough to have proper prefixes, suffixes and ex
 # two more predicates than the universe: one over the root type, one with an untyped parameter (any declared object conforms,
 # an undeclared name does not)
 DOMAIN_TEXT = G.domain_text([("act", [], ["and"], ["and"])], const=True, name=DOMAIN_NAME,
-                            extra_predicates=[["ob", "?o", "-", "object"], ["un", "?a"]])
+                            extra_predicates=[["ob", "?o", "-", "object"], ["un", "?a"]]).replace(
+    "(:functions", "(:functions (w4 ?a ?b ?c ?d - t1)")
 _N = [0]
 
 
@@ -432,10 +436,10 @@ def main(tier):
             cx = r["cex"]
             detail = f"{label}: {cx['what']} with the initial state {[a for a, v in cx['atoms'].items() if v]} {cx['fluents']}"
             # attributed to a listed finding only if EVERY difference observed on that path has the finding's shape
-            kf = next((k for k in known if cx.get("all_problems") and all(
-                all(x in pr_ for x in k.get("problem_contains", ["\0"])) for pr_ in cx["all_problems"])), None)
-            if kf is not None:
-                rep.known(kf, 1)
+            kfs = runner.attribute_problems(known, cx.get("all_problems") or [])
+            if kfs is not None:
+                for kf in kfs:
+                    rep.known(kf, 1)
             else:
                 rep.violation(detail, {"property": "C09", "kind": "c09", "task": t, "cex": cx})
         elif r["outcome"] == "inconclusive":
